@@ -69,8 +69,8 @@ def _observe(det):
             o[k_] = adapters.observe(m)
         return o
     return adapters.observe(det)
-CONTAINERS = ["C", "F", "view", "df", "df_mixed"]
-STREAM_1D = ["nd1", "rowview", "series"]   # one observation in a 1-D container (streaming detectors only)
+CONTAINERS = ["C", "F", "view", "df", "df_mixed", "ro_view"]
+STREAM_1D = ["nd1", "rowview", "series", "ro_row"]   # one observation in a 1-D container (streaming detectors only)
 
 
 def scenarios(tier):
@@ -110,7 +110,7 @@ def gen(rng, scenario, tier):
             d = 1      # a single-column frame is already contiguous: "copies" that are no-ops show only here
         bs, _ = workload.batches(rng, rng.randint(5, 10), d, 6, 20, drift_rate=0.5, integer=(name != "NNDVI" and rng.random() < 0.3))
         for j, b in enumerate(bs):
-            ev.append([b, rng.choice(CONTAINERS if d > 1 else CONTAINERS[:4]), np_seed(rng)] + (["ref"] if (j > 0 and rng.random() < 0.12) else []))
+            ev.append([b, rng.choice(CONTAINERS if d > 1 else CONTAINERS[:4] + ["ro_view"]), np_seed(rng)] + (["ref"] if (j > 0 and rng.random() < 0.12) else []))
     elif k == "y":
         ys, _ = workload.outcomes(rng, rng.randint(15, 40), burst=0.1)
         for y in ys:
@@ -119,7 +119,7 @@ def gen(rng, scenario, tier):
         knd = rng.choice(["gauss", "ramp"]) if name == "CUSUM" else None
         xs, _ = workload.stream_values(rng, rng.randint(15, 40), kind=knd, drift_rate=0.1)
         for x in xs:
-            ev.append([[x], rng.choice(CONTAINERS[:4] + STREAM_1D), np_seed(rng)])
+            ev.append([[x], rng.choice(CONTAINERS[:4] + ["ro_view"] + STREAM_1D), np_seed(rng)])
     else:
         d = adapters.n_features(rng, name)
         n = rng.randint(28, 40) if name == "PCACD" else rng.randint(15, 40)
@@ -139,6 +139,16 @@ def build(rows, tag):
         base = np.full((3, arr.shape[1]), -7.5)
         base[1] = arr[0]
         return base[1]                      # a row view of the caller's 2-D buffer
+    if tag == "ro_row":
+        base = np.full((3, arr.shape[1]), -7.5)
+        base[1] = arr[0]
+        v = base[1]
+        v.flags.writeable = False           # handed out read-only; the caller's buffer itself stays writeable
+        return v
+    if tag == "ro_view":
+        v = arr.copy().view()
+        v.flags.writeable = False           # e.g. what DataFrame.to_numpy() / np.broadcast_to / a ring buffer hand out
+        return v
     if tag == "series":
         return pd.Series(arr[0].copy(), index=NAMES[: arr.shape[1]])
     if tag == "C":
@@ -163,7 +173,13 @@ def scribble(obj):
     elif isinstance(obj, pd.Series):
         obj.iloc[:] = 999999.0
     elif isinstance(obj, np.ndarray):
-        obj[...] = 1e6
+        if not obj.flags.writeable:
+            owner = obj
+            while owner.base is not None and isinstance(owner.base, np.ndarray):
+                owner = owner.base           # the caller writes through the buffer it owns
+            owner[...] = 1e6
+        else:
+            obj[...] = 1e6
     elif isinstance(obj, list):
         for i in range(len(obj)):
             obj[i] = 424242
@@ -307,7 +323,7 @@ def gen_injectors(rng):
         calls.append({"rows": rows, "container": rng.choice(["nd", "nd", "df", "ndF", "view"]), "from": a, "to": b,
                       "shift": rng.choice([0.5, -1.0, 2.0]), "probs": rng.choice([{"0.0": 0.5}, {"0.0": 0.2, "1.0": 0.3}, {"1.0": 1.0}, {}]),
                       "alpha": {"0.0": rng.choice([1, 2]), "1.0": 1, "2.0": rng.choice([1, 3])}, "x0": rng.choice([0.0, 1.5]),
-                      "seed": np_seed(rng)})
+                      "seed": np_seed(rng), "chain": rng.random() < 0.4})
     return {"injector": name, "calls": calls, "events": calls}
 
 
@@ -317,11 +333,19 @@ def run_injectors(case, ctx):
     name = case["injector"]
     obj = ctx.call(f"C15:{name}:ctor", getattr(inj, name))
     cols = ["f", "g", "label"]
+    prev = None          # (container, object returned by the previous call)
+    kept = []            # every object returned so far, with a snapshot: a later call must not reach into an earlier result
     for i, c in enumerate(case["calls"]):
         ctx.step = i
         arr = np.array(c["rows"], dtype=float)
         ct = c["container"]
-        if ct == "df":
+        chained = bool(c.get("chain")) and prev is not None and name != "FeatureCoverInjector" and len(prev[1]) >= max(c["from"], c["to"])
+        if chained:
+            # a pipeline: this call works on what the previous call returned (same injector instance)
+            ct, data = prev
+            ctx.fault("injector_call_on_previous_result")
+            col = (lambda j: cols[j]) if ct == "df" else (lambda j: j)  # noqa: E731
+        elif ct == "df":
             data = pd.DataFrame(arr.copy(), columns=cols)
             col = lambda j: cols[j]  # noqa: E731
         else:
@@ -383,7 +407,14 @@ def run_injectors(case, ctx):
         if out is data or np.shares_memory(np.asarray(out), np.asarray(data)) or (ct == "view" and np.shares_memory(np.asarray(out), data.base)):
             ctx.violation("aliasing", f"C15:{name}:output_aliases_input", f"call {i} ({ct}): the returned object shares memory with the input")
             raise EndRun()
-        ctx.state(name, ct)
+        for j, (o, sn) in enumerate(kept):
+            if not unchanged(sn, o):
+                ctx.violation("aliasing", f"C15:{name}:earlier_result_overwritten",
+                              f"call {i} ({ct}{', on the previous result' if chained else ''}) changed the object that call {j} had returned")
+                raise EndRun()
+        kept.append((out, snapshot(out)))
+        prev = ("df" if ct == "df" else "nd", out)
+        ctx.state(name, ct, chained)
         ctx.obs(name, ct, np.asarray(out, dtype=float).shape)
     kinds = {c["container"] for c in case["calls"]}
     ctx.nontrivial = "df" in kinds and len(kinds) >= 2
